@@ -59,13 +59,12 @@ Section AnyOperators.
     all_ binop LMAX f m p = (Yield vs, p'').
   Proof. exact (all_is_nextn_then_reset binop LMAX). Qed.
 
-  (* remaining classes (PReset over a nested pattern - needs reset (reset p) = reset p for the whole fragment, jointly with
-     closure -, PRound PIndexOf PArrayIndex PDict PDictKey PConcatenate, PSequence with pattern items,
-     list- / tuple- / dict-valued parameters): full statement
-       forall f f' p, fragment p -> reset f (snd (step f' p)) = reset f p ;
-     proved here: the leaf case; C04_reset_erases_step has every other modelled class; the rest is validated by the
-     correspondence and the oracle *)
-  Theorem C04_reset_erases_step_leaf_partial : forall f f' p,
+  (* the leaf case on its own (constants, PSequence over scalars).  The classes formerly listed here as open - PReset over a
+     nested pattern, PRound PIndexOf PArrayIndex PDict PDictKey PConcatenate, PSequence with pattern items, list- / tuple- /
+     dict-valued parameters - are proved in Props/C04More.v (C04_more_reset_erases_step, C04_more_reset_erases_reset: the full
+     statement  forall f f' p, fragment p -> reset f (snd (step f' p)) = reset f p  on the extended fragment xpat); the one
+     exception, a pattern stored inside a tuple, is the known finding C04-reset-tuples (C04_more_tuple_pattern_not_rewound) *)
+  Theorem C04_reset_erases_step_leaf : forall f f' p,
     leaf_reset p = true -> reset binop LMAX f (snd (step binop LMAX f' p)) = reset binop LMAX f p.
   Proof. exact (leaf_reset_step binop LMAX). Qed.
 End AnyOperators.
